@@ -225,3 +225,8 @@ package server
 //@     invariant muState == 2 && ctxErrCalls == old(ctxErrCalls) && atomicval(s.isShutdown)
 //@     invariant allIdle <==> atomicTrueLoads == passStart
 //@     invariant atomicTrueLoads >= passStart
+
+// the default assembler factory installed by serve: every connection gets an assembler of its own, with an empty buffer
+//@ func (*Server).serve$1(handler ModbusHandler) (res PacketAssembler)
+//@   fresh[C15,C16] res
+//@   ensures[C15,C16] dyntype(res) == *ModbusTCPAssembler && res.(*ModbusTCPAssembler) != nil && buflen(res.(*ModbusTCPAssembler).received) == 0
